@@ -282,11 +282,13 @@ BACKEND_NAMES = {"mem": False, "mem2": False, "memsrc": True}     # name -> subc
 def _impl(module_path=None):
     """import the real modules (or a mutated copy of setup.py for the mutation sanity runs), register the backends"""
     global _IMPL, _scr
-    if _IMPL is not None and module_path is None:
-        return _IMPL
+    # mutation sanity (design.d/C12.md): run the harness against a mutated copy of setup.py, /repo is not edited
+    module_path = module_path or os.environ.get("C12_MUTANT") or None
     if _scr is None:
         _scr = tempfile.mkdtemp(prefix="i2n-verif-c12-")
     os.chdir(_scr)
+    if _IMPL is not None:
+        return _IMPL
     from avocado.core import exceptions
     from virttest.utils_params import Params, ParamNotFound
     from avocado_i2n.states import pool
@@ -305,8 +307,7 @@ def _impl(module_path=None):
     backends = {"mem": MemA, "mem2": MemB, "memsrc": MemS}
     impl = {"ss": ss, "Params": Params, "exc": exceptions, "ParamNotFound": ParamNotFound, "backends": backends,
             "saved": dict(ss.BACKENDS)}
-    if module_path is None:
-        _IMPL = impl
+    _IMPL = impl
     return impl
 
 
@@ -690,6 +691,8 @@ def run_cases(ctx, cases, impl=None, oracle=True, model=True):
         finally:
             impl["backends"] = saved_b
         ctx.case({"kind": case.get("kind", "seq"), "n_ops": len(case["ops"]), "n_objects": len(case["store"]),
+                  "store": vlib.hashlib.sha1(json.dumps(case["store"], sort_keys=True).encode()).hexdigest()[:12],
+                  "ops": vlib.hashlib.sha1(json.dumps(case["ops"], sort_keys=True).encode()).hexdigest()[:12],
                   "first": {"op": case["ops"][0]["op"], "params": case["ops"][0]["params"]} if case["ops"] else None},
                  nontrivial=True, sample_every=2000)
     if not model:
@@ -893,7 +896,7 @@ def correspondence(ctx):
         cases = [table_case(r, i) for i, r in enumerate(rows)]
         for i in range(0, len(cases), 3000):
             run_cases(ctx, cases[i:i + 3000])
-        n_seq, n_mal, max_ops = (20000, 4000, 20) if thorough else (1500, 500, 8)
+        n_seq, n_mal, max_ops = (20000, 5000, 20) if thorough else (4000, 1200, 10)
         seqs = [gen_seq(rng, max_ops) for _ in range(n_seq)] + [gen_seq(rng, max_ops, True) for _ in range(n_mal)]
         for i in range(0, len(seqs), 500):
             run_cases(ctx, seqs[i:i + 500])
